@@ -78,9 +78,9 @@ CaseLog* g_budgetLog = 0;
 void (*g_hookOverride)(int, unsigned long, unsigned long) = 0;
 
 void hookReset() {
-    unsigned long mr = g_hook.maxReads, mf = g_hook.maxReadsAfterFail, ma = g_hook.maxAllocBytes, ms = g_hook.maxSingleAlloc; bool on = g_hook.budgetOn;
+    unsigned long ml = g_hook.maxLoopEntries; unsigned long mr = g_hook.maxReads, mf = g_hook.maxReadsAfterFail, ma = g_hook.maxAllocBytes, ms = g_hook.maxSingleAlloc; bool on = g_hook.budgetOn;
     memset(&g_hook, 0, sizeof g_hook);
-    g_hook.maxReads = mr; g_hook.maxReadsAfterFail = mf; g_hook.maxAllocBytes = ma; g_hook.maxSingleAlloc = ms; g_hook.budgetOn = on;
+    g_hook.maxLoopEntries = ml; g_hook.maxReads = mr; g_hook.maxReadsAfterFail = mf; g_hook.maxAllocBytes = ma; g_hook.maxSingleAlloc = ms; g_hook.budgetOn = on;
 }
 
 static const char* sectionName(int s) {
@@ -218,5 +218,8 @@ extern "C" void melund_ezc3d_verif_hook(int site, unsigned long a, unsigned long
             if (g_hook.maxReadsAfterFail && g_hook.readsAfterFail > g_hook.maxReadsAfterFail) budgetStop("reads_after_eof");
             if (g_hook.maxReads && g_hook.reads > g_hook.maxReads) budgetStop("reads");
         }
+    } else if (site == 2) {
+        ++g_hook.loopEntries;
+        if (g_hook.budgetOn && g_hook.maxLoopEntries && g_hook.loopEntries > g_hook.maxLoopEntries) budgetStop("loop_iterations");
     } else g_hook.section = site;
 }
